@@ -319,6 +319,12 @@ func runOracleVotes(r *hx.R, n int, w *hx.W, _ []string) error {
 				if r.Chance(1, 2) {
 					feeder = sdk.AccAddress(val)
 				}
+				if r.Chance(1, 4) {
+					// an earlier commitment that is never revealed stays pending into the next period; the new commitment below
+					// replaces it and must be bound to ITS OWN period
+					doPrevote(val, feeder, newPlan(val), 9)
+					doAdvance(int64(vp) - (height % int64(vp)) + r.Range(0, int64(vp)-1))
+				}
 				pl := newPlan(val)
 				doPrevote(val, feeder, pl, 9)
 				toNext := int64(vp) - (height % int64(vp)) // blocks until the next period starts
